@@ -719,13 +719,12 @@ def d4_enum(ctx, idx):
             hint = ''
             lax_here = [a for a, w in too_lax if w == why]
             still = [a_ for (a_, q_) in refused_ok if spec_rejects(a_['symmetry'], a_['complex'], a_['traceless'], a_['determinant'], a_['dimension']) == why]
-            if still:
-                for key in ('dimension', 'symmetry', 'complex', 'traceless', 'determinant'):
-                    va, vs = {a_[key] for a_ in lax_here}, {a_[key] for a_ in still}
-                    if not (va & vs):
-                        hint = ' (it is still refused for %s in %s, but accepted for %s in %s: the refusal now also depends on %s)' % (
-                            key, sorted(vs, key=str), key, sorted(va, key=str), key)
-                        break
+            keys_ = ('dimension', 'symmetry', 'complex', 'traceless', 'determinant')
+            for key in keys_:
+                twin = [a_ for a_ in still if a_[key] != asg[key] and all(a_[k_] == asg[k_] for k_ in keys_ if k_ != key)]
+                if twin:
+                    hint = ' (the same combination with %s=%r is still refused: the refusal now also depends on %s)' % (key, twin[0][key], key)
+                    break
             r_tab.violation('SquareMatrices.__init__: %s' % why, 'the constructor accepts %s (%d of the enumerated combinations): %s, so '
                             'gen_sample cannot return a matrix with the requested properties (assertion error, endless retries ending in '
                             'ValueError, or a sample violating a constraint)%s' % (fmt(asg), n, why, hint), fi.loc, expected='ConfigError')
